@@ -151,6 +151,10 @@ func resolve(e *Env, ft reflect.Type, args []reflect.Value) []reflect.Value {
 	if rt.Kind() == reflect.Chan {
 		return []reflect.Value{e.subscribe(ctx, rt, path), noErr}
 	}
+	if outcome == "errval" {
+		// the idiomatic "return partial, err": a non-nil value together with an error
+		return []reflect.Value{e.fabricate(rt, path, field, "value"), reflect.ValueOf(errors.New("E@" + path))}
+	}
 	return []reflect.Value{e.fabricate(rt, path, field, outcome), noErr}
 }
 
